@@ -109,6 +109,9 @@ func (Fam) Gen(r *rand.Rand, i int) string {
 	if r.Intn(4) == 0 {
 		return genCoinsOp(r)
 	}
+	if r.Intn(12) == 0 {
+		return genDecCoinsOp(r)
+	}
 	if r.Intn(6) == 0 {
 		k := rawKinds[r.Intn(len(rawKinds))]
 		bits := 255
@@ -636,6 +639,9 @@ func (Fam) Exec(op string) (string, []common.Failure) {
 	k := f[0]
 	if strings.HasPrefix(k, "coins.") {
 		return execCoins(op)
+	}
+	if strings.HasPrefix(k, "mon.deccoins.") {
+		return execDecCoins(op)
 	}
 	if strings.HasSuffix(k, ".cmp") {
 		return execCmp(op)
